@@ -36,6 +36,7 @@ def W(name):
 
 def qm(role):
   return Mock("q_" + role, {
+      "__str__": lambda pe, a, k, role=role: "Q:" + role,
       "__call__": lambda pe, a, k, role=role: Tensor(
           ("app", "Q_" + role, (), (pe.as_term(a[0]),)),
           a[0].shape if isinstance(a[0], Tensor) else None),
